@@ -1199,6 +1199,7 @@ class XEl:
     nil: bool = False
     xsi_type: str | None = None  # clark name of a model class target
     any_prim: bool = False  # xsi:type must name an XSD builtin consistent with the value
+    cls: str | None = None  # name of the binding class this element is bound to (None: leaf / generic / wrapper)
 
     def to_json(self):
         def c(x):
@@ -1262,7 +1263,7 @@ class Ref:
 
     def dataclass(self, obj, qname, xsi_type=None, field_nillable=False) -> XEl:
         c = self.m.cls(type(obj).__name__)
-        el = XEl(qname=qname, xsi_type=xsi_type)
+        el = XEl(qname=qname, xsi_type=xsi_type, cls=c.name)
         items = []  # (decl, field, value) for element-ish fields
         for decl, f in chain_fields(self.m, c):
             if f.xml == "Ignore":
